@@ -1,4 +1,5 @@
 """C03 — every accepted statement reaches each sink once, in thread order (DESIGN §4 C03)."""
+import re
 from qlib import (peel_not, AnalysisBroken, strip, isnode, walk, is_call, norm_cmp, var_ref, is_null, const_val, short, call_obj,
                   expr_key, field_name, is_this_field)
 from rules.c02 import cmp_sides as cmp_sides_
@@ -51,6 +52,7 @@ def run(ctx):
         # says so (statements held back by the grace period are still in the queue when a pass reads nothing) (= C07.R1)
         from rules import c07 as _c07
         _c07.r1(_Renamed(ctx, "C07.R1", "C03.R10"), facts, cfg)
+        console_sink_forwards(ctx, facts, cfg)
         _bn = {m.base: m for m in facts.fns if m.config == cfg and m.cls == _c02.CLS and not m.rec.get("ctor") and not m.rec.get("dtor")}
         _c02.check_r4(_Renamed(ctx, "C02.R4", "C03.R9-cap-"), _bn, strict=True)
         queue_kind_tables(ctx, facts, cfg)
@@ -429,6 +431,20 @@ def r6_ring(ctx, facts, cfg):
     """R6d-h: the rest of the per-thread event ring: what empty / size mean, when front has nothing, when back grows, by how much,
     and when it shrinks"""
     TB = "quill::detail::TransitEventBuffer::"
+    # R6j: moving a ring carries every member across, and the moved-from ring is empty (reader == writer)
+    # (armed only if the library moves a ring at all: on the pinned tree every ring lives behind a shared_ptr and is never moved — the
+    # move operations, which do not carry _shrink_requested, are dead code as far as the properties go)
+    movers = [(f.short, c["loc"]) for f in facts.fns if f.config == cfg and not f.short.startswith("qv::") and f.cls != "quill::detail::TransitEventBuffer"
+              for c in f.walk() if c["k"] in ("CXXConstructExpr", "CXXTemporaryObjectExpr", "CXXOperatorCallExpr") and
+              re.search(r"TransitEventBuffer::(TransitEventBuffer|operator=)$", c.get("callee") or "") and "TransitEventBuffer &&" in (c.get("sig") or "")]
+    if movers:
+        rs = memberwise_move(ctx, facts, cfg, "C03.R6j", "quill::detail::TransitEventBuffer", "TransitEventBuffer", 6)
+        ctx.ob("C03.R6j", "TransitEventBuffer:moved-from-is-empty", rs.get("_reader_pos") is not None and rs.get("_reader_pos") == rs.get("_writer_pos"),
+               "the source of a move is left with reader position == writer position (what empty() tests): %s" % rs)
+    else:
+        ctx.note("TransitEventBuffer's move constructor / move assignment have no call site in the library (every ring lives behind a "
+                 "shared_ptr): the member-wise move rule C03.R6j is not armed; observed: they do not carry _shrink_requested")
+
     def single_ret(m):
         rets = [m.g.node_ast(r).get("val") for r in m.g.return_nodes()]
         return strip(rets[0], casts=True) if len(rets) == 1 else None
@@ -803,3 +819,84 @@ def buffered_iff_true(ctx, facts, cfg):
            "the function returns true on exactly the paths that buffered one event (push_back once) and false on exactly those that "
            "buffered none: the caller consumes the record's bytes on 'true' and leaves them on 'false', so 'true' without an event "
            "loses a statement and 'false' with one delivers it twice", fn=f)
+
+
+def memberwise_move(ctx, facts, cfg, rule, cls, site, floor_fields):
+    """exhaustive over the data members of `cls`: the move constructor initialises, and the move assignment assigns (on every path but
+    self-assignment), every member from the same member of the source; a member of the source that is reset afterwards is reset to the
+    same value by both"""
+    crec = facts.cls(cls, cfg)
+    if not crec:
+        raise AnalysisBroken("%s class record not found" % cls)
+    fields = [x["name"] for x in crec["fields"]]
+    ctx.floor(rule, "%s data members" % site, len(fields), floor_fields)
+    fs = [f for f in facts.fns if f.config == cfg and f.cls == cls]
+    mctor = [f for f in fs if f.rec.get("ctor") and len(f.rec.get("params") or []) == 1 and f.rec["params"][0]["ty"].endswith("&&")]
+    massign = [f for f in fs if f.base == "operator=" and len(f.rec.get("params") or []) == 1 and f.rec["params"][0]["ty"].endswith("&&")]
+    if not mctor or not massign:
+        raise AnalysisBroken("%s move constructor / move assignment not found" % site)
+
+    def resets(f, src):
+        out = {}
+        for n in f.walk():
+            if n["k"] == "BinaryOperator" and n["op"] == "=" and isnode(strip(n["lhs"])) and strip(n["lhs"])["k"] == "MemberExpr" and \
+                    var_ref(strip(n["lhs"]).get("base")) == src and const_val(n["rhs"]) is not None:
+                out[strip(n["lhs"])["mname"]] = const_val(n["rhs"])
+        return out
+    f = mctor[0]
+    src = f.rec["params"][0]["did"]
+    got = {}
+    for i in f.rec.get("inits") or []:
+        e = i.get("expr")
+        got[i.get("member")] = isnode(e) and any(x["k"] == "MemberExpr" and x.get("mname") == i.get("member") and var_ref(x.get("base")) == src for x in walk(e))
+    missing = [m for m in fields if not got.get(m)]
+    r_ctor = resets(f, src)
+    ctx.ob(rule, "%s::%s(&&):every-member" % (site, site), not missing,
+           "the move constructor initialises every data member from the same member of its source (missing: %s)" % missing, fn=f)
+    f2 = massign[0]
+    g = f2.g
+    src2 = f2.rec["params"][0]["did"]
+    self_edges = []
+    for bid, b in g.blocks.items():
+        c = g.term_cond(bid)
+        nc = norm_cmp(c) if c is not None else None
+        if nc and nc[0] in ("==", "!=") and any(x["k"] == "CXXThisExpr" for x in walk(c)) and \
+                any(x["k"] == "UnaryOperator" and x.get("op") == "&" and var_ref(x.get("sub")) == src2 for x in walk(c)):
+            self_edges.append((bid, "T" if nc[0] == "==" else "F"))
+    miss2, cond2 = [], []
+    for m in fields:
+        pos = []
+        for n in f2.walk():
+            tgt, rhs = (n["lhs"], n["rhs"]) if n["k"] == "BinaryOperator" and n["op"] == "=" else \
+                ((n["args"][0], n["args"][1]) if n["k"] == "CXXOperatorCallExpr" and short(n.get("callee") or "").endswith("operator=") and len(n["args"]) == 2 else (None, None))
+            if tgt is not None and is_this_field(tgt, m) and any(x["k"] == "MemberExpr" and x.get("mname") == m and var_ref(x.get("base")) == src2 for x in walk(rhs)):
+                pos += g.positions(n)
+        if not pos:
+            miss2.append(m)
+        elif g.exists_path([g.entry_node], [g.exit_node], avoid_nodes=pos, avoid_edges=self_edges):
+            cond2.append(m)
+    r_asg = resets(f2, src2)
+    ctx.ob(rule, "%s::operator=(&&):every-member" % site, not miss2 and not cond2 and bool(self_edges),
+           "move assignment assigns every data member from the same member of its source on every path except self-assignment (missing: %s, "
+           "only on some paths: %s)" % (miss2, cond2), fn=f2)
+    ctx.ob(rule, "%s:moved-from-state" % site, r_ctor == r_asg and len(r_ctor) >= 1,
+           "both leave the source in the same state (reset by the constructor: %s, by the assignment: %s)" % (r_ctor, r_asg), fn=f2)
+    return r_ctor
+
+
+def console_sink_forwards(ctx, facts, cfg):
+    """R11: the console sink adds colour codes around a statement, it does not decide whether the statement is written: on every path
+    ConsoleSink::write_log hands the statement to StreamSink::write_log exactly once, with its own parameters in their order."""
+    fs = facts.fn("quill::ConsoleSink::write_log", cfg)
+    if not fs:
+        raise AnalysisBroken("ConsoleSink::write_log not found")
+    f = fs[0]
+    g = f.g
+    calls = f.calls(r"^quill::StreamSink::write_log$")
+    pos = npos(f, calls)
+    cnt = g.count_on_paths([g.entry_node], [g.exit_node], pos)
+    params = [p["did"] for p in f.rec["params"]]
+    same = bool(calls) and all(len(c["args"]) == len(params) and all(var_ref(strip(a, casts=True)) == params[i] or
+                                                                     any(var_ref(x) == params[i] for x in walk(a)) for i, a in enumerate(c["args"])) for c in calls)
+    ctx.ob("C03.R11", "ConsoleSink::write_log:forwards-once", cnt[g.exit_node] == (1, 1) and same,
+           "StreamSink::write_log is called exactly once on every path %s, each time with the sink's own parameters in order (%s)" % (cnt[g.exit_node], same), fn=f)
